@@ -100,6 +100,23 @@ def gen_cases(tier, rng, families):
             # V on a queued writer waits out its timeout: by then every follower is in the queue
             st += ["MG" + rng.choice(KEYS), "V" + names[-1], "Uw1", "Jw1"] + ["J" + nm for nm in names] + ["MG" + k for k in KEYS]
             add(st, "8388608:4096:4096:%d" % rng.randrange(2))
+        if "waiters" in families:
+            # several threads wait for the background thread at once (compact_range callers, a
+            # writer stalled behind a pending flush): when the background task ends every one of
+            # them has to be woken
+            st = ["M" + wtok(rng, "P") for _ in range(rng.randrange(1, 4))]
+            st += ["MCxfe:xff", "Q", "M" + wtok(rng, "P")]
+            st += ["Abg:" + rng.choice(["flush:building", "flush:building", "manifest:before_append"]), "Tc1:C-:-", "Vbg"]
+            names = ["c1"]
+            for j in range(rng.randrange(1, 4)):
+                nm = "c%d" % (j + 2)
+                names.append(nm)
+                st.append("T%s:%s" % (nm, rng.choice(["C-:-", "Cxfe:xff", "Cx61:x63"])))
+            if rng.random() < 0.5:
+                names.append("w")
+                st.append("Tw:" + wtok(rng, "P"))
+            st += ["MG" + rng.choice(KEYS), "Ubg"] + ["J" + nm for nm in names] + ["Q", "MA"]
+            add(st, "4096:4096:256:%d" % rng.randrange(2))
         if "walgc" in families:
             # the window between a memtable rotation and the installation of that memtable's flush,
             # with a table compaction installing its result (and collecting garbage) inside it: the
